@@ -311,6 +311,7 @@ func openNodeOpt(db *youdb.MemDatabase, pendingEv []staking.Evidence, ucon, plai
 	if err != nil {
 		panic(err)
 	}
+	bc.VerifWaitIndexersActive() // else Stop() leaves the indexers' event loops (and the chain) behind
 	st := staking.NewStaking(nil) // nil mux: no background goroutines; evidences are injected
 	if !plain {
 		st.Register(bc.Processor())
